@@ -52,6 +52,7 @@ void assign_svalue(svalue_t *to, svalue_t *from) {
   *to = *from;
 }
 
+#ifndef VM_OWN_STRINGS
 static char *v_alloc(size_t n) {
   if (n > 20 || G_next_str >= 2) V_STOP();
   char *r = G_next_str++ == 0 ? &G_r0[0] : &G_r1[0];
@@ -65,6 +66,7 @@ char *extend_string(char *str, size_t n) {
   for (int i = 0; i < 4 && i < MSTR_SIZE(str); i++) r[i] = str[i];
   return r;
 }
+#endif
 /* Container helpers. A harness that generates operands of a container type defines VM_HAVE_<TYPE> and supplies the helpers
    itself; otherwise reaching one of them is a harness error. (Without bodies CBMC returns an unconstrained pointer and the
    memcpy behind it touches every object: 10 GB.) */
